@@ -4,6 +4,8 @@ import re
 import panics
 from mirq import callee, fmt_origin, origin_calls, origin_fields, strip_refs
 
+THOROUGH_CONFIGS = ["default", "blocking", "websocket", "all"]
+
 EXPLANATION = (
     "R18.1 panic-site inventory of Builder::isi, every builder method and the TCP/UDP branches of connect_blocking / connect_async up to "
     "the handshake (the relay branch sends no ISI and is out of scope; it is cut off at the `Proto::Relay` edge). R18.2 field provenance "
